@@ -704,6 +704,11 @@ func (a ruleMap) inner() json.Marshaler { return a.m }
 var obsSuffix = []string{"Q 0", "Q 1", "Q 2", "Q 3", "G 0", "G 1", "G 2", "V 0", "V 1", "V 2", "H 0", "H 1", "H 2", "L", "E", "A", "J",
 	"W 0", "W 1", "W 2", "W 3", "X 0", "X 1", "X 2", "N 0", "N 2", "U 0", "L"}
 
+// obsSuffixLong follows the exhaustive sequences of length >= 5 (thorough tier,
+// 24M sequences): the read-only observations, one Each stopped by its callback
+// and one Map stopped by its callback (a write after the early exit).
+var obsSuffixLong = append(append([]string(nil), obsSuffix[:17]...), "X 0", "N 0")
+
 // early-exit ops: understood by the hook / the Lean driver since the protocol
 // was extended; probed at start-up (extOK) so that an older hook or driver
 // degrades to the histories without them (loudly: rep.Extra / stats).
@@ -912,17 +917,13 @@ func Run(args []string) {
 		}
 	}
 	rep := vh.NewReport("c19-omap",
-		"EXHAUSTIVE: every sequence of mutating ops (S k v, U k, D k, F p, M; 3 keys, 2 values, 4 predicates = 17 ops; plus X 0 = Each whose "+
-			"callback returns an error at the first entry and N 1 = Map whose callback returns an error at the second entry: 19 ops) of length <= L "+
-			"(quick 4; thorough 6 over the 17 ops and 5 with X/N) followed by the full observation suffix (Q p, G/V/H k, L, E, A, J; then the early "+
-			"exits W p = Find with its callback calls observed, X 0..2 = Each stopped by a callback error at each position, N 0, N 2 = Map stopped "+
-			"likewise, then U 0 and L), run on jschema.ASTNodes, "+
-			"jschema.RuleASTNodes (zero value, MakeRuleASTNodes(0|8), NewRuleASTNodes) and schema.Constraints (hook); RANDOM: sequences of "+
-			"1..200 mixed ops (X n, N n, W p included) over 3 or 6 keys. Reference = association list; an iteration ended early has called its "+
-			"callback for the entries up to the stop, in order, returns the callback's error, and leaves the map usable. WATCHDOG: every op under a "+
-			"deadline; an op that does not return = diff BLOCKED (confirmed by a replay, per-op deadline). Non-trivial = the reference saw an "+
-			"order-relevant event (re-Set of a live key, Set after Delete/Filter-out, Delete on a non-empty map, Filter dropping an entry, a write "+
-			"after an iteration that was ended early)")
+		"EXHAUSTIVE: every sequence of mutating ops (S k v, U k, D k, F p, M over 3 keys, 2 values, 4 predicates; X 0 / N 1 = Each / Map ended by "+
+			"a callback error: 19 ops) of length <= L (quick 4, thorough 6; 5 with X/N) + the observation suffix (Q p, G/V/H k, L, E, A, J, "+
+			"then early exits: W p = Find with its calls, X 0..2, N 0, N 2, then U 0, L) on jschema.ASTNodes, RuleASTNodes (4 constructors) and "+
+			"schema.Constraints (hook); RANDOM: 1..200 mixed ops over 3 or 6 keys. Reference = association list; an iteration ended early made "+
+			"the calls up to the stop, returns the callback's error, leaves the map usable. WATCHDOG: an op that does not return = diff BLOCKED. "+
+			"Non-trivial = order-relevant event (re-Set of a live key, Set after Delete/Filter-out, Delete on a non-empty map, Filter dropping "+
+			"an entry, a write after an iteration ended early)")
 	maxLen := vh.Pick(4, 6)
 	maxLenExt := vh.Pick(4, 5) // sequences that contain an early-exit op (X 0, N 1)
 	modelLen := vh.Pick(4, 5)
@@ -1053,11 +1054,15 @@ func Run(args []string) {
 					if wd.abort.Load() || hb.gone.Load() {
 						return
 					}
-					ops := make([]string, 0, len(idx)+len(obsSuffix))
+					suffix := obsSuffix
+					if len(idx) >= 5 {
+						suffix = obsSuffixLong
+					}
+					ops := make([]string, 0, len(idx)+len(suffix))
 					for _, i := range idx {
 						ops = append(ops, muts[i])
 					}
-					ops = append(ops, obsSuffix...)
+					ops = append(ops, suffix...)
 					res := evalSeq(ops, useModel && len(idx) <= modelLen, len(idx), hb)
 					res.exhaustiveLong = len(idx) > 3
 					batch = append(batch, res)
@@ -1153,7 +1158,7 @@ func Run(args []string) {
 		rep.Extra["ended_early"] = fmt.Sprintf("the watchdog confirmed %d histories with an op that does not return (diffs BLOCKED) and ended the run; the streams are incomplete", maxBlocked)
 	}
 	rep.Extra["watchdog"] = fmt.Sprintf("fast path: heartbeat per op, stall > %v = suspect; suspects replayed on all map kinds with every op in its own goroutine under %v (hook: shortest prefix that does not return); run ended after %d confirmed histories", stallDeadline, opDeadline, maxBlocked)
-	rep.Extra["exhaustive_bound"] = fmt.Sprintf("all mutating sequences of length <= %d over 17 ops and of length <= %d over 19 ops (with X 0, N 1), each + %d observations", maxLen, maxLenExt, len(obsSuffix))
+	rep.Extra["exhaustive_bound"] = fmt.Sprintf("all mutating sequences of length <= %d over 17 ops and of length <= %d over 19 ops (with X 0, N 1), each + %d observations (length >= 5: %d)", maxLen, maxLenExt, len(obsSuffix), len(obsSuffixLong))
 	if useModel {
 		rep.Extra["model"] = fmt.Sprintf("omap requests for exhaustive length <= %d and all random sequences", modelLen)
 	} else {
